@@ -1,3 +1,9 @@
-(* placeholder; REGENERATED by harness/c06.py *)
+(* REGENERATED from src/mxlpy/meta/source_tools.py by harness/c06.py::extract_facts; do not edit.
+   An unrecognised shape yields an *Unknown / *Other entry, which breaks C06_facts_pinned. *)
 From FnSym Require Import FnToSym.
-Definition gen_fnsym_facts : facts := expected_facts.
+Definition gen_fnsym_facts : facts :=
+  mkFacts
+    [(Add, Add); (Sub, Sub); (Mul, Mul); (Div, Div); (Pow, Pow); (Mod, Mod); (FloorDiv, FloorDiv)]
+    [(UAdd, UAdd); (USub, USub)]
+    [(Gt, RelGt); (GtE, RelGe); (Lt, RelLt); (LtE, RelLe); (CEq, RelEq); (CNe, RelNe)]
+    true SubsSim TupSim StmtRaise CfContinuation true true true.
